@@ -167,3 +167,59 @@ sources.mains = [__$main]"#;
     );
   }
 }
+
+/// Verification hooks (only compiled with `--cfg samlang_verif`): thin wrappers that expose
+/// crate-private kernels and single passes to the harness in /verif. They add no behaviour.
+#[cfg(samlang_verif)]
+pub mod verif {
+  use samlang_ast::{hir::BinaryOperator, mir};
+  use samlang_heap::{Heap, TempPStrCounter};
+
+  pub fn evaluate_bin_op(operator: BinaryOperator, v1: i32, v2: i32) -> Option<i32> {
+    super::conditional_constant_propagation::verif::evaluate_bin_op(operator, v1, v2)
+  }
+
+  pub fn merge_binary_expression(
+    outer_operator: BinaryOperator,
+    inner_operator: BinaryOperator,
+    inner_const: i32,
+    outer_const: i32,
+  ) -> Option<(BinaryOperator, i32)> {
+    super::conditional_constant_propagation::verif::merge_binary_expression(
+      outer_operator,
+      inner_operator,
+      inner_const,
+      outer_const,
+    )
+  }
+
+  pub fn number_of_iterations_to_break_guard(i0: i32, inc: i32, operator: u8, g: i32) -> Option<i32> {
+    super::loop_algebraic_optimization::verif::number_of_iterations_to_break_guard(
+      i0, inc, operator, g,
+    )
+  }
+
+  pub const FUNCTION_PASSES: &[&str] = &["ccp", "sroa", "loop", "cse", "lvn", "dce"];
+
+  /// Runs one per-function pass in isolation. Returns false for an unknown name.
+  pub fn run_function_pass(name: &str, f: &mut mir::Function, counter: &TempPStrCounter) -> bool {
+    match name {
+      "ccp" => super::conditional_constant_propagation::optimize_function(f),
+      "sroa" => super::scalar_replacement::optimize_function(f),
+      "loop" => super::loop_optimizations::optimize_function(f, counter),
+      "cse" => super::common_subexpression_elimination::optimize_function(f, counter),
+      "lvn" => super::local_value_numbering::optimize_function(f),
+      "dce" => super::dead_code_elimination::optimize_function(f),
+      _ => return false,
+    }
+    true
+  }
+
+  pub fn run_inlining(functions: Vec<mir::Function>, heap: &mut Heap) -> Vec<mir::Function> {
+    super::inlining::optimize_functions(functions, heap)
+  }
+
+  pub fn run_unused_name_elimination(sources: &mut mir::Sources) {
+    super::unused_name_elimination::optimize_sources(sources)
+  }
+}
